@@ -17,11 +17,13 @@ def run(tier, seed):
     failures = []
     cases = 0
     params = [(1, 0.5), (2, 0.3), (3, 0.2), (5, 0.1), (10, 0.05)] + ([(20, 0.01), (33, 0.001)] if tier == "thorough" else [])
+    # every exported size residue (the header wraps its rows): all element counts 1..60 at one rate, one key set each
+    sweep = [(n, 0.05) for n in range(1, 61 if tier == "quick" else 200)]
     with tempfile.TemporaryDirectory(prefix="pyvc-hdr-") as tmp:
         for cls in (BloomFilter, CountingBloomFilter):
-            for n, p in params:
-                for nkeys in range(0, 4 if tier == "quick" else 8):
-                    for rep in range(2 if tier == "quick" else 6):
+            for n, p in params + sweep:
+                for nkeys in (range(0, 4 if tier == "quick" else 8) if (n, p) in params else (2,)):
+                    for rep in range((2 if tier == "quick" else 6) if (n, p) in params else 1):
                         cases += 1
                         f = cls(n, p)
                         for _ in range(nkeys):
@@ -51,5 +53,5 @@ def run(tier, seed):
                             failures.append({"obligation": "B.c_header." + bad.replace(" ", "_"), "clause": bad,
                                              "case": {"class": cls.__name__, "n": n, "p": p, "keys": nkeys}})
     return {"cases": cases, "failures": failures[:20],
-            "bound": f"{len(params)} geometries (<= {'63' if tier == 'quick' else '475'} bits) x 0..{3 if tier == 'quick' else 7} keys, "
+            "bound": f"every element count 1..{len(sweep)} at rate 0.05 (all size residues of the wrapped rows) and {len(params)} geometries (<= {'63' if tier == 'quick' else '475'} bits) x 0..{3 if tier == 'quick' else 7} keys, "
                      "plain and counting filters"}
